@@ -57,6 +57,7 @@ type engine struct {
 	extraAt map[pair][]evt  // ... per (org,index)
 	rotatedOpen bool        // After == rotate done: open segments now have segmeta entries
 	flushedAll  bool        // a flush was done after the open segments were written
+	lastMRot    time.Time   // when the last metrics rotation returned
 	volume  bool            // volume-based pass: victims are read from the metadata files (decideVolume)
 }
 
@@ -305,6 +306,7 @@ func (e *engine) build() error {
 			if err := e.c.Call(&sut.Req{Op: "c14.mrotate"}, nil); err != nil {
 				return callErr(e.c, "metrics rotation", err)
 			}
+			e.lastMRot = time.Now()
 		}
 		if err := e.registerRound(ri, r); err != nil {
 			return err
@@ -898,6 +900,7 @@ func (e *engine) after() error {
 		if err := e.c.Call(&sut.Req{Op: "c14.mrotate"}, nil); err != nil {
 			return callErr(e.c, "metrics rotation after the pass", err)
 		}
+		e.lastMRot = time.Now()
 		e.rotatedOpen = true
 	}
 	return e.observe("after the passes and a " + e.cs.After + " of the open segments")
@@ -908,17 +911,17 @@ func (e *engine) after() error {
 // segment was rotated would re-list that segment, which cannot happen when hours lie between rotation,
 // expiry and restart.
 func (e *engine) metaWalTick() {
+	if e.lastMRot.IsZero() {
+		return // nothing was rotated: the log cannot list a rotated segment
+	}
 	f := filepath.Join(e.paths["data"], e.paths["host"], "wal-ts", "metaentry", "metricsMetaEntry.wal")
 	t0 := time.Now()
 	for time.Since(t0) < 2500*time.Millisecond {
 		fi, err := os.Stat(f)
-		if err != nil {
-			return
+		if err != nil || fi.ModTime().After(e.lastMRot.Add(5*time.Millisecond)) {
+			return // no log on disk, or written after the last rotation
 		}
-		if fi.ModTime().After(t0) {
-			return
-		}
-		time.Sleep(20 * time.Millisecond)
+		time.Sleep(10 * time.Millisecond)
 	}
 }
 
